@@ -7,7 +7,7 @@ MIX = ("Mixed check: obligations listed under coverage.unbounded_obligations are
 
 PROPS["C06"] = dict(
     level="other", claimed=True, verus=True,
-    level_text='Verus (unit oodv, body cut out of /repo, abstract element decoder and slice reader): OodFrame::parse for EVERY trace width, evaluation count, Lagrange frame size and byte content - it accepts exactly the canonical encodings (each of the three sections is fully consumed, the frame has exactly 2 rows of exactly the trace width, a Lagrange frame only with an auxiliary segment), returns the de-interleaved decoded rows, and cannot overflow or index out of range on any input. Totality contracts (never panics, never overflows, no out-of-bounds index, no unchecked allocation size) on the deserializers a proof passes through, decided by Kani on the real functions with fully symbolic header bytes (fixed-size headers for every byte string, variable-size payloads up to the stated bound), including the conjectured and the proven security estimate (libm results arbitrary). verify() end to end is covered by bounded native stand-ins only: every damaged version (bit flips, byte extremes, truncations, structured edits of every length-prefixed component, crafted option sets) of the proofs of two pipelines is parsed and verified without a panic.',
+    level_text='Verus (unit slicereaderv, bodies cut out of /repo): every SliceReader method for every slice, position and requested length up to usize::MAX - no overflow, no out-of-range index; Queries::parse, FriProofLayer::parse, FriProof::parse_remainder never overflow or index out of range for any content. Verus (unit oodv, body cut out of /repo, abstract element decoder and slice reader): OodFrame::parse for EVERY trace width, evaluation count, Lagrange frame size and byte content - it accepts exactly the canonical encodings (each of the three sections is fully consumed, the frame has exactly 2 rows of exactly the trace width, a Lagrange frame only with an auxiliary segment), returns the de-interleaved decoded rows, and cannot overflow or index out of range on any input. Totality contracts (never panics, never overflows, no out-of-bounds index, no unchecked allocation size) on the deserializers a proof passes through, decided by Kani on the real functions with fully symbolic header bytes (fixed-size headers for every byte string, variable-size payloads up to the stated bound), including the conjectured and the proven security estimate (libm results arbitrary). verify() end to end is covered by bounded native stand-ins only: every damaged version (bit flips, byte extremes, truncations, structured edits of every length-prefixed component, crafted option sets) of the proofs of two pipelines is parsed and verified without a panic.',
     level_note="Bounded stand-ins are listed under coverage.native_bounded_standins and are not proofs. Not decided: verify() for all byte strings; allocation proportionality beyond read_many's capacity. Panics raised by the example / test AIR's own Air::new on foreign trace shapes are user code and counted separately. Trusted: Kani/CBMC, the alloc::fmt::format stub (message text only).",
     explanation=MIX)
 PROPS["C12"] = dict(
@@ -61,8 +61,8 @@ PROPS["C15"] = dict(
     explanation=MIX)
 PROPS["C16"] = dict(
     level="other", claimed=True, verus=True,
-    level_text="Verus (body cut out of /repo): overlaps_with is true exactly when the two assertions name a common step of the same column, for every power-of-two trace length and all well-formed single / periodic / sequence shapes; Verus (unit divisorv, bodies cut out of /repo, abstract field): ConstraintDivisor::from_assertion returns x^k - g^(k * first_step) for every trace length and validated assertion, evaluate_at is the in-order product of the numerator terms over the exemption product, and on the trace domain that numerator vanishes at step i exactly when i is an asserted step (relative to 'g has order exactly n', which C07 proves for the three fields); Kani: overlaps_with with a counterexample for trace lengths <= 32; validate_trace_length / get_num_steps / the single, periodic and sequence constructors accept exactly the well-formed assertions; ConstraintDivisor numerators, exemptions and evaluate_at on bounded domains. Native bounded stand-in for BoundaryConstraints::new (BTreeMap / BTreeSet code): overlapping assertions are refused in every listing order; group divisors vanish exactly on the asserted steps and every constraint compares its cell with the asserted value, for all ordered pairs of assertions on trace lengths 8, 16, 32.",
-    level_note='Bounded (stated per obligation / stand-in). Not decided: transition divisors (from_transition is an iterator-adapter body) and value polynomials for all domain sizes; set_num_transition_exemptions beyond the exercised values.',
+    level_text="Verus (unit divisorv): ConstraintDivisor::from_transition is x^n - 1 over the exemption points g^(n-k) .. g^(n-1), and on the trace domain it vanishes on exactly the first n - k steps (theorem_transition_zero_set, relative to the order of g). Verus (body cut out of /repo): overlaps_with is true exactly when the two assertions name a common step of the same column, for every power-of-two trace length and all well-formed single / periodic / sequence shapes; Verus (unit divisorv, bodies cut out of /repo, abstract field): ConstraintDivisor::from_assertion returns x^k - g^(k * first_step) for every trace length and validated assertion, evaluate_at is the in-order product of the numerator terms over the exemption product, and on the trace domain that numerator vanishes at step i exactly when i is an asserted step (relative to 'g has order exactly n', which C07 proves for the three fields); Kani: overlaps_with with a counterexample for trace lengths <= 32; validate_trace_length / get_num_steps / the single, periodic and sequence constructors accept exactly the well-formed assertions; ConstraintDivisor numerators, exemptions and evaluate_at on bounded domains. Native bounded stand-in for BoundaryConstraints::new (BTreeMap / BTreeSet code): overlapping assertions are refused in every listing order; group divisors vanish exactly on the asserted steps and every constraint compares its cell with the asserted value, for all ordered pairs of assertions on trace lengths 8, 16, 32.",
+    level_note='Bounded (stated per obligation / stand-in). Not decided: value polynomials for all domain sizes. The map / collect over the exemption steps in from_transition is an assumed std contract. set_num_transition_exemptions is under contract in unit contextv (C17).',
     explanation=MIX)
 
 PROPS["C11"] = dict(
@@ -73,7 +73,7 @@ PROPS["C11"] = dict(
 
 PROPS["C05"] = dict(
     level="other", claimed=True, verus=True,
-    level_text='Verus (unit friverifv, body cut out of /repo, abstract channel / coin / field): FriVerifier::new for EVERY number of layer commitments - a list whose length is not the number of folding steps plus one is refused before the coin is touched, otherwise the coin sees exactly reseed(c_0), draw, reseed(c_1), draw, ..., the challenge stored for layer i is the one drawn after c_i, and DegreeTruncation is returned exactly at the first non-final depth whose running degree bound plus one is not a multiple of the folding factor. Kani on the real FRI verifier with doubles for channel, hasher and coin: the degree-truncation rule of FriVerifier::new, reseed-then-draw per layer commitment, the remainder degree bound, remainder bound to its commitment, missing commitment refused; num_fri_layers for all schedules. Native bounded stand-in: polynomials above the claimed degree bound are refused, a flipped proof bit is refused, claimed evaluations that differ from the committed layer at a single queried position are refused, read_layer_queries returns values iff verify_batch accepts the opening.',
+    level_text='Verus (units oodv, friv, bodies cut out of /repo): FriProofLayer::parse and FriProof::parse_remainder decode canonically for every byte content; get_query_values picks, for every list of positions, the cell position / row_length of the row opened for position mod row_length. Verus (unit friverifv, body cut out of /repo, abstract channel / coin / field): FriVerifier::new for EVERY number of layer commitments - a list whose length is not the number of folding steps plus one is refused before the coin is touched, otherwise the coin sees exactly reseed(c_0), draw, reseed(c_1), draw, ..., the challenge stored for layer i is the one drawn after c_i, and DegreeTruncation is returned exactly at the first non-final depth whose running degree bound plus one is not a multiple of the folding factor. Kani on the real FRI verifier with doubles for channel, hasher and coin: the degree-truncation rule of FriVerifier::new, reseed-then-draw per layer commitment, the remainder degree bound, remainder bound to its commitment, missing commitment refused; num_fri_layers for all schedules. Native bounded stand-in: polynomials above the claimed degree bound are refused, a flipped proof bit is refused, claimed evaluations that differ from the committed layer at a single queried position are refused, read_layer_queries returns values iff verify_batch accepts the opening.',
     level_note='Bounded shapes (stated per obligation / stand-in). Not decided: folding consistency for symbolic field values; anything probabilistic (distance from low degree).',
     explanation=MIX)
 
@@ -84,7 +84,7 @@ PROPS["C04"] = dict(
     explanation=MIX)
 PROPS["C03"] = dict(
     level="other", claimed=True, verus=True,
-    level_text='Verus (unit oodv, body cut out of /repo, abstract element decoder and slice reader): OodFrame::parse for EVERY trace width, evaluation count, Lagrange frame size and byte content - it accepts exactly the canonical encodings (each of the three sections is fully consumed, the frame has exactly 2 rows of exactly the trace width, a Lagrange frame only with an auxiliary segment), returns the de-interleaved decoded rows, and cannot overflow or index out of range on any input. Kani: canonical decoding of proof components on the real parsers (OodFrame: no ignored bytes, frame size fixed; Commitments: every byte consumed; Queries container; Table); the FRI remainder is bound to its commitment. Native bounded stand-ins: every single-bit flip (every 5th bit in the quick tier), byte extreme and truncation of small proofs of two pipelines, and structured edits of every length-prefixed component (shortened, lengthened, emptied; FRI layers removed / duplicated / swapped; optional GKR proof added / removed / resized; counts off by one), are refused; every single-element and shape mutation of Merkle batch openings is refused.',
+    level_text='Verus (unit oodv, bodies cut out of /repo): Queries::parse, FriProofLayer::parse and FriProof::parse_remainder are canonical decoders for EVERY byte content - exact lengths, decodable elements, a batch Merkle proof for the row / query hashes, nothing trailing. Verus (unit oodv, body cut out of /repo, abstract element decoder and slice reader): OodFrame::parse for EVERY trace width, evaluation count, Lagrange frame size and byte content - it accepts exactly the canonical encodings (each of the three sections is fully consumed, the frame has exactly 2 rows of exactly the trace width, a Lagrange frame only with an auxiliary segment), returns the de-interleaved decoded rows, and cannot overflow or index out of range on any input. Kani: canonical decoding of proof components on the real parsers (OodFrame: no ignored bytes, frame size fixed; Commitments: every byte consumed; Queries container; Table); the FRI remainder is bound to its commitment. Native bounded stand-ins: every single-bit flip (every 5th bit in the quick tier), byte extreme and truncation of small proofs of two pipelines, and structured edits of every length-prefixed component (shortened, lengthened, emptied; FRI layers removed / duplicated / swapped; optional GKR proof added / removed / resized; counts off by one), are refused; every single-element and shape mutation of Merkle batch openings is refused.',
     level_note='Bounded (stated per obligation / stand-in). Not decided: adaptive substitutions that need the query positions for components other than the FRI remainder; proofs of all sizes. The FRI partition count is layout-only metadata and excluded, as the property states.',
     explanation=MIX)
 
